@@ -20,7 +20,9 @@ MANIFEST_ENTRY = {
             "image has a unique positive correlation peak, at least 3x3 pixels and non-zero lowest Fourier coefficients on both "
             "axes (no correlation-theorem or strict-patch hypothesis left; concrete 3x3 witness). "
             "Tied to the code on every run by float64 differential runs of preprocess/transform_coordinates/align_translation "
-            "and an exact (dyadic-coordinate) differential run of bilinear_kde.",
+            "and an exact (dyadic-coordinate) differential run of bilinear_kde; inputs are drawn over memory layouts (C/Fortran/"
+            "transposed/strided/negative-stride, mixed in one stack), dtypes, list vs 3-D containers, keyword and positional call forms "
+            "(parameter order pinned) and call histories on one object including rejected calls.",
     "note": "Trusted: Lean kernel + propext/Classical.choice/Quot.sound; scipy.interpolate.interp1d (quadratic/cubic through "
             "3/4 points = the interpolating polynomial) and scipy.ndimage.gaussian_filter (mode=reflect conserves the sum) are "
             "modelled/assumed and only measured; float32 accumulation of the weight map. Moved from assumed to proved in round 2: "
@@ -72,9 +74,81 @@ def make_image(rng, H, W):
     return img
 
 
-def build(images, angles, pad, pad_value, sigma, nk):
+LAYOUTS = ["C", "F", "T", "step", "neg"]
+DTYPES = ["float64", "float32", "int64"]
+
+PINNED_SIGNATURES = {
+    "bilinear_kde": ["xa", "ya", "values", "output_shape", "kde_sigma", "pad_value", "threshold", "lowpass_filter",
+                     "max_batch_size", "return_pix_count"],
+    "DriftCorrection.from_data": ["images", "scan_direction_degrees"],
+    "DriftCorrection.preprocess": ["self", "pad_fraction", "pad_value", "kde_sigma", "number_knots", "show_merged", "show_images",
+                                   "show_knots", "kwargs"],
+    "DriftCorrection.align_translation": ["self", "upsample_factor", "min_image_shift", "max_image_shift", "show_merged", "show_images",
+                                          "show_knots", "kwargs"],
+    "DriftInterpolator.__init__": ["self", "input_shape", "output_shape", "scan_fast", "scan_slow", "pad_value", "kde_sigma"],
+    "DriftInterpolator.transform_rows": ["self", "knots_row"],
+    "DriftInterpolator.transform_coordinates": ["self", "knots"],
+    "DriftInterpolator.warp_image": ["self", "image", "knots", "kde_sigma", "output_shape", "pad_value", "upsample_factor"],
+}
+
+
+def check_signatures(ctx):
+    """the parameter ORDER of the anchored entry points is part of the tie: positional calls depend on it"""
+    import inspect
+    from quantem.core.utils import imaging_utils as iu
+    from quantem.imaging.drift import DriftCorrection, DriftInterpolator
+    objs = {"bilinear_kde": iu.bilinear_kde, "DriftCorrection.from_data": DriftCorrection.from_data,
+            "DriftCorrection.preprocess": DriftCorrection.preprocess, "DriftCorrection.align_translation": DriftCorrection.align_translation,
+            "DriftInterpolator.__init__": DriftInterpolator.__init__, "DriftInterpolator.transform_rows": DriftInterpolator.transform_rows,
+            "DriftInterpolator.transform_coordinates": DriftInterpolator.transform_coordinates,
+            "DriftInterpolator.warp_image": DriftInterpolator.warp_image}
+    for name, f in objs.items():
+        got = list(inspect.signature(f).parameters)
+        if got != PINNED_SIGNATURES[name]:
+            ctx.disagree("signature", {"stream": "signature", "function": name}, PINNED_SIGNATURES[name], got,
+                         note=f"parameter order of {name} differs from the pinned signature (positional callers bind differently)")
+
+
+def apply_layout(img, kind, dtype="float64"):
+    """value-identical copies of an image in different memory layouts / dtypes"""
+    a = np.asarray(img).astype(dtype)
+    if kind == "C":
+        return np.ascontiguousarray(a)
+    if kind == "F":
+        return np.asfortranarray(a)
+    if kind == "T":          # transposed view of a C array
+        return np.ascontiguousarray(a.T).T
+    if kind == "step":       # every second element of a larger buffer
+        big = np.zeros((2 * a.shape[0], 2 * a.shape[1]), dtype=a.dtype)
+        big[::2, ::2] = a
+        return big[::2, ::2]
+    if kind == "neg":        # negative strides
+        return np.ascontiguousarray(a[::-1, ::-1])[::-1, ::-1]
+    raise ValueError(kind)
+
+
+def make_stack(images, layouts=None, container="list"):
+    if layouts is None:
+        arrs = [np.array(im, dtype=float, copy=True) for im in images]
+    else:
+        arrs = [apply_layout(im, k, d) for im, (k, d) in zip(images, layouts)]
+    if container == "list":
+        return arrs
+    st = np.stack([np.asarray(a, dtype=arrs[0].dtype) for a in arrs])
+    if container == "array3d":
+        return st
+    if container == "array3d-F":
+        return np.asfortranarray(st)
+    if container == "array3d-view":     # image axis last in memory
+        return np.ascontiguousarray(st.transpose(1, 2, 0)).transpose(2, 0, 1)
+    raise ValueError(container)
+
+
+def build(images, angles, pad, pad_value, sigma, nk, layouts=None, container="list", positional=False):
     from quantem.imaging.drift import DriftCorrection
-    return DriftCorrection.from_data([im.copy() for im in images], list(angles)).preprocess(
+    if positional:   # positional call forms, in the pinned parameter order
+        return DriftCorrection.from_data(make_stack(images, layouts, container), list(angles)).preprocess(pad, pad_value, sigma, nk)
+    return DriftCorrection.from_data(images=make_stack(images, layouts, container), scan_direction_degrees=list(angles)).preprocess(
         pad_fraction=pad, pad_value=pad_value, kde_sigma=sigma, number_knots=nk)
 
 
@@ -126,7 +200,21 @@ def case_coords(ctx, drv, case):
     ctx.dist[f"coords:nk={nk}"] += 1
     ctx.dist[f"coords:shape={shape_sig(H, W)}"] += 1
     ctx.dist[f"coords:pad_value={type(case['pad_value']).__name__}:{case['pad_value'] if isinstance(case['pad_value'], str) else ''}"] += 1
-    dc = build(images, angles, pad, case["pad_value"], case["sigma"], nk)
+    layouts, container, positional = case.get("layouts"), case.get("container", "list"), case.get("positional", False)
+    dc = build(images, angles, pad, case["pad_value"], case["sigma"], nk, layouts, container, positional)
+    ctx.dist[f"coords:call form={'positional' if positional else 'keyword'}"] += 1
+    ctx.dist[f"coords:container={container}"] += 1
+    if layouts:
+        for k, dt_ in layouts:
+            ctx.dist[f"coords:layout={k}/{dt_}"] += 1
+        # the memory layout / dtype of value-identical inputs must not matter: compare with plain C float64 inputs
+        plain = build(images, angles, pad, case["pad_value"], case["sigma"], nk)
+        wd = float(np.max(np.abs(np.asarray(dc.images_warped.array, dtype=float) - np.asarray(plain.images_warped.array, dtype=float)))) \
+            if tuple(dc.shape) == tuple(plain.shape) else float("inf")
+        ctx.stat_max("coords:warped stack, layout classes vs C float64", wd)
+        if not wd <= 1e-6 * max(1.0, float(np.max(np.abs(np.asarray(plain.images_warped.array, dtype=float))))):
+            ctx.pred_fail("layout-warped-image", "resampled stack depends on the memory layout / dtype of value-identical input images "
+                          "(pixel values are not placed at their own coordinates)", case, observed={"max_diff": wd}, required="identical to C-contiguous float64 input")
     if tuple(dc.shape) != (len(images), Hc_o, Wc_o):
         ctx.pred_fail("canvas-shape", "canvas is not 2*round(n*(1+pad)/2) per axis", case, observed=list(dc.shape), required=[len(images), Hc_o, Wc_o])
     for idx, deg in enumerate(angles):
@@ -186,8 +274,16 @@ def gen_coords(rng, i):
     pv = rng.weighted([("median", 3), ("mean", 1), ("min", 1), ("max", 1), (0.25, 1), (None, 1)])
     if pv is None:
         pv = [float(k) for k in range(n)]
-    return {"stream": "coords", "H": H, "W": W, "nk": nk, "pad": pad, "angles": angles, "pad_value": pv,
+    case = {"stream": "coords", "H": H, "W": W, "nk": nk, "pad": pad, "angles": angles, "pad_value": pv,
             "sigma": rng.choice([0.0, 0.5, 1.0]), "sub": rng.next() & 0xFFFFFFFF}
+    r2 = rng.fork(77)
+    if r2.chance(0.7):
+        container = r2.weighted([("list", 5), ("array3d", 2), ("array3d-F", 1), ("array3d-view", 1)])
+        dt = r2.choice(DTYPES)
+        case["layouts"] = [[r2.choice(LAYOUTS), dt if container != "list" else r2.choice(DTYPES)] for _ in range(n)]
+        case["container"] = container
+    case["positional"] = r2.chance(0.4)
+    return case
 
 
 def case_splat(ctx, drv, case):
@@ -197,11 +293,38 @@ def case_splat(ctx, drv, case):
     pts = case["pts"]          # [[num, den_log2, num, den_log2], ...]  dyadic coordinates
     xa = np.array([p[0] / float(1 << p[1]) for p in pts])
     ya = np.array([p[2] / float(1 << p[3]) for p in pts])
-    vals = np.ones(len(pts))
+    vals = np.array(case.get("vals") or [1] * len(pts), dtype=float)
     ctx.count()
     ctx.dist[f"splat:batch={'none' if case['batch'] is None else 'set'}"] += 1
     ctx.dist["splat:wraps" if (xa.min() < 0 or ya.min() < 0 or xa.max() >= rows - 1 or ya.max() >= cols - 1) else "splat:inside"] += 1
-    _, w = bilinear_kde(xa, ya, vals, (rows, cols), kde_sigma=0.0, max_batch_size=case["batch"], return_pix_count=True)
+    # the three inputs as 2-D arrays, each in its own memory layout / dtype (value-identical)
+    hw = case.get("hw") or [len(pts), 1]
+    lay = case.get("layouts") or [["C", "float64"]] * 3
+    ctx.dist["splat:layouts=" + ",".join(k for k, _ in lay)] += 1
+    xa2 = apply_layout(xa.reshape(hw), lay[0][0], "float64")
+    ya2 = apply_layout(ya.reshape(hw), lay[1][0], "float64")
+    va2 = apply_layout(vals.reshape(hw), lay[2][0], lay[2][1])
+    if case.get("positional"):
+        img, w = bilinear_kde(xa2, ya2, va2, (rows, cols), 0.0, 0.0, 1e-3, False, case["batch"], True)
+    else:
+        img, w = bilinear_kde(xa=xa2, ya=ya2, values=va2, output_shape=(rows, cols), kde_sigma=0.0, max_batch_size=case["batch"],
+                              return_pix_count=True)
+    # independent oracle for the value image: every point deposits value*weight at its own four (wrapped) corners
+    cnt = np.zeros((rows, cols))
+    out = np.zeros((rows, cols))
+    for x, y, v in zip(xa, ya, vals):
+        fx, fy = math.floor(x), math.floor(y)
+        dx, dy = x - fx, y - fy
+        for ox, oy, wt in ((0, 0, (1 - dx) * (1 - dy)), (1, 0, dx * (1 - dy)), (0, 1, (1 - dx) * dy), (1, 1, dx * dy)):
+            cnt[(fx + ox) % rows, (fy + oy) % cols] += wt
+            out[(fx + ox) % rows, (fy + oy) % cols] += wt * v
+    wgt = np.minimum(cnt / 1e-3, 1.0)
+    exp_img = wgt * (out / np.maximum(cnt, 1e-8))
+    derr = float(np.max(np.abs(np.asarray(img, dtype=float) - exp_img))) if np.shape(img) == exp_img.shape else float("inf")
+    ctx.stat_max("splat:value image vs independent oracle", derr)
+    if not derr <= 1e-5 * max(1.0, float(np.max(np.abs(exp_img)))):
+        ctx.pred_fail("splat-values-misplaced", "bilinear_kde does not deposit each value at its own coordinates (memory layout / argument order)",
+                      case, observed={"max_diff": derr}, required="weighted mean of the values splatted at their coordinates")
     w = np.asarray(w, dtype=np.float64)
     m = ask(drv, {"op": "splat", "rows": rows, "cols": cols,
                   "pts": [[f"{p[0]}/{1 << p[1]}", f"{p[2]}/{1 << p[3]}"] for p in pts]})
@@ -219,12 +342,16 @@ def case_splat(ctx, drv, case):
 
 def gen_splat(rng):
     rows, cols = rng.randint(1, 7), rng.randint(1, 7)
-    n = rng.randint(1, 10)
+    h, w = rng.randint(1, 4), rng.randint(1, 4)
+    n = h * w
     pts = []
     for _ in range(n):
         e1, e2 = rng.randint(0, 3), rng.randint(0, 3)
         pts.append([rng.randint(-2 * (1 << e1), (rows + 2) * (1 << e1)), e1, rng.randint(-2 * (1 << e2), (cols + 2) * (1 << e2)), e2])
-    return {"stream": "splat", "rows": rows, "cols": cols, "pts": pts, "batch": rng.choice([None, None, 1, 2, 3, 7])}
+    return {"stream": "splat", "rows": rows, "cols": cols, "pts": pts, "batch": rng.choice([None, None, 1, 2, 3, 7]),
+            "hw": [h, w], "vals": [rng.randint(0, 9) for _ in range(n)],
+            "layouts": [[rng.choice(LAYOUTS), "float64"], [rng.choice(LAYOUTS), "float64"], [rng.choice(LAYOUTS), rng.choice(DTYPES)]],
+            "positional": rng.chance(0.4)}
 
 
 def case_align(ctx, drv, case):
@@ -249,11 +376,16 @@ def case_align(ctx, drv, case):
     ctx.dist[f"align:up={up}"] += 1
     ctx.dist[f"align:nk={nk}"] += 1
     ctx.dist[f"align:kde_sigma={case['sigma']}"] += 1
-    dc = build(images, [deg] * n, pad, "median", case["sigma"], nk)
+    dc = build(images, [deg] * n, pad, "median", case["sigma"], nk, case.get("layouts"), case.get("container", "list"))
+    if case.get("layouts"):
+        ctx.dist["align:mixed memory layouts / dtypes in the stack"] += 1
     k0 = [np.array(k, dtype=float, copy=True) for k in dc.knots]
     warped = [np.asarray(a, dtype=np.float64).copy() for a in dc.images_warped.array]
     with contextlib.redirect_stdout(io.StringIO()):
-        dc.align_translation(upsample_factor=up, max_image_shift=case["max_shift"], show_merged=False)
+        if case.get("positional"):   # (upsample_factor, min_image_shift, max_image_shift, show_merged)
+            dc.align_translation(up, None, case["max_shift"], False)
+        else:
+            dc.align_translation(upsample_factor=up, max_image_shift=case["max_shift"], show_merged=False)
     delta = [np.asarray(k1, dtype=float) - k for k1, k in zip(dc.knots, k0)]
     dxy = [[float(dl[0].flat[0]), float(dl[1].flat[0])] for dl in delta]
     uniform = max(float(np.max(np.abs(dl[0] - dl[0].flat[0]))) + float(np.max(np.abs(dl[1] - dl[1].flat[0]))) for dl in delta)
@@ -291,6 +423,12 @@ def gen_align(rng, i):
     case = {"stream": "align", "H": H, "W": W, "nk": rng.randint(1, 4), "pad": rng.choice([0.0, 0.25, 0.5]),
             "deg": rng.weighted([(0, 1), (90, 1), (rng.randint(0, 359), 4)]), "n": n, "up": up, "identical": identical,
             "sigma": rng.choice([0.25, 0.5, 0.75, 1.0, 1.5]), "max_shift": rng.choice([32, 32, 3, 5]), "sub": rng.next() & 0xFFFFFFFF}
+    r2 = rng.fork(78)
+    if r2.chance(0.6):
+        case["container"] = r2.weighted([("list", 5), ("array3d", 1), ("array3d-view", 1)])
+        dt = r2.choice(DTYPES)
+        case["layouts"] = [[r2.choice(LAYOUTS), dt if case["container"] != "list" else r2.choice(DTYPES)] for _ in range(n)]
+    case["positional"] = r2.chance(0.4)
     if not identical:
         case["ts"] = [[0, 0]] + [[rng.randint(-1, 1), rng.randint(-1, 1)] for _ in range(n - 1)]
     return case
@@ -527,6 +665,7 @@ def run(ctx):
     from qv.driver import Driver
     drv = Driver("C15")
     try:
+        check_signatures(ctx)
         rng = ctx.rng.fork(1)
         for i in range(ctx.n(300, 3000)):
             run_case(ctx, drv, gen_coords(rng.fork(i), i))
@@ -548,7 +687,10 @@ def replay(ctx, rep):
     case = rep.get("case") or (rep.get("correspondence_disagreements") or [{}])[0].get("case")
     if not case:
         return False
-    case = {k: v for k, v in case.items() if k != "image"}
+    case = {k: v for k, v in case.items() if k not in ("image", "failing_step")}
+    if case.get("stream") == "signature":
+        check_signatures(ctx)
+        return True
     drv = Driver("C15")
     try:
         run_case(ctx, drv, case)
